@@ -390,7 +390,8 @@ fn run_inner(input: &Value) -> Option<Value> {
     let body = input["body"].as_array()?.clone();
     let calls = input["calls"].as_array()?.clone();
     let scoped = input["scoped"].as_bool().unwrap_or(false);
-    let mut lines = vec![if scoped { "fn <scope> f".to_string() } else { "fn f".to_string() }, "trace = set \"${trace} in:${1},${2},${3}\"".to_string()];
+    let mut lines = vec!["fn g".to_string(), "trace = set \"${trace} g:${1}\"".to_string(), "return gv${1}".to_string(), "end".to_string(),
+        if scoped { "fn <scope> f".to_string() } else { "fn f".to_string() }, "trace = set \"${trace} in:${1},${2},${3}\"".to_string()];
     c04::render(&body, &mut lines);
     lines.push("end".to_string());
     if input["preset"].as_bool().unwrap_or(false) {
